@@ -1120,6 +1120,96 @@ def init_stream(ck, drv, T):
             s.compare(inp, real, ans)
 
 
+def seq_stream(ck, drv, T, F):
+    """One BootableImage object, a random sequence of init-offset assignments: after every step it must behave exactly like a FRESH
+    object built from the same configuration with the current init offset."""
+    from spsdk.image.bootable_image.bimg import BootableImage
+    from spsdk.image.bootable_image.segments import BootableImageSegment
+    s = ck.stream("init_sequence", "one object per (distinct segment table x 2 families (thorough: every family), latest revision), all segments supplied, a "
+                  "random sequence of 8 (thorough 14) init-offset assignments - 0, every static offset, offsets -1/+1/between, above the last, negative; by "
+                  "`init_offset = int`, `set_init_offset(int)` and `set_init_offset(BootableImageSegment)`, each table also with the fixed pattern X -> 0 -> Y -> 0: "
+                  "after EVERY step init offset, excluded flags, `segments`, len() and export() equal those of a fresh object loaded with the current init "
+                  "offset, a refused request leaves the object unchanged; (init, excluded flags) per step vs the model's state machine; non-trivial = step "
+                  "after a non-zero offset")
+    rng = ck.rng
+    seen = {}
+    for row in T.rows:
+        if row["revision"] == "latest" and row["usable"]:
+            seen.setdefault(row["layout"], []).append(row)
+    rows = [r for lay in sorted(seen) for r in (seen[lay][:1] + (rng.sample(seen[lay][1:], 1) if len(seen[lay]) > 1 else []) if ck.quick else seen[lay])]
+    reqs = []
+
+    def observe(b):
+        ln, ex = pyres(len, b), pyres(b.export)
+        return (b.init_offset, "".join("1" if x.excluded else "0" for x in b._segments), [x.NAME.label for x in b.segments],
+                ln[1] if ln[0] == "ok" else ln[0], (len(ex[1]), adler(ex[1])) if ex[0] == "ok" else ex[0])
+
+    for row in rows:
+        fam, rev, mt = row["family"], row["revision"], row["mem_type"]
+        segs = T.segs(row)
+        cfg = {"family": fam, "revision": rev, "memory_type": mt, "init_offset": 0}
+        for i, (kd, off) in enumerate(segs):
+            p = kd["parser"]
+            if p == "SegmentFcb":
+                cfg[kd["cfg_key"]] = F.path(F.build(fam, rev, f"fcb:{kd['size']}:3:0"))
+            elif p == "SegmentXmcd":
+                cfg[kd["cfg_key"]] = F.path(F.build(fam, rev, "xmcd:" + XMCD_FILES["rt7xx" if fam.startswith("mimxrt7") else "rt118x"][0]))
+            elif p in ("SegmentImageVersion", "SegmentImageVersionAntiPole"):
+                cfg[kd["cfg_key"]] = 0x4321
+            else:   # raw headers of their SIZE; application containers as plain bytes (nothing is parsed on load / export)
+                cfg[kd["cfg_key"]] = F.path(prbytes(f"seq/{kd['label']}", kd["size"] if kd["size"] > 0 else 96 + 32 * i))
+        ld = pyres(BootableImage.load_from_config, dict(cfg), [F.scratch])
+        if ld[0] != "ok":
+            s.note((fam, rev, mt, []))
+            s.expect(False, (fam, rev, mt, []), "load_from_config raised for the sequence object", ld)
+            continue
+        b = ld[1]
+        statics = sorted({off for _, off in segs if off is not None})
+        labels = [kd["label"] for kd, _ in segs]
+        foreign = next(k["label"] for k in T.kinds if k["label"] not in labels)
+        ints = sorted({0, 1, -1} | set(statics) | {o + d for o in statics for d in (-1, 1)} | {max(statics) + 1}
+                      | {(a + c) // 2 for a, c in zip(statics, statics[1:])})
+        last = statics[-1]
+        ops = [("int", last), ("int", 0)] + ([("name", labels[[o for _, o in segs].index(statics[1])]), ("set", 0)] if len(statics) > 1 else [])
+        for _ in range(ck.budget(8, 14) - len(ops)):
+            k = rng.random()
+            ops.append(("int", rng.choice(ints)) if k < 0.45 else ("set", rng.choice(ints)) if k < 0.65 else
+                       ("name", rng.choice(labels + [foreign])) if k < 0.9 else ("int", 0))
+        done, toks, model_real = [], [], []
+        prev = observe(b)
+        for kind, v in ops:
+            done.append([kind, v])
+            inp = (fam, rev, mt, list(done))
+            if kind == "int":
+                def act(v=v):
+                    b.init_offset = v
+            elif kind == "set":
+                def act(v=v):
+                    b.set_init_offset(v)
+            else:
+                def act(v=v):
+                    b.set_init_offset(BootableImageSegment.from_label(v))
+            r = pyres(act)
+            now = observe(b)
+            s.note(inp, nontrivial=prev[0] != 0, cls=kind + ("/refused" if r[0] != "ok" else "/zero" if now[0] == 0 else "/pos"))
+            if r[0] != "ok":
+                s.expect(r[0] == "E:spsdk" and now == prev, inp, "a refused init-offset request changes the object / raises a non-SPSDK exception", (r, now), prev)
+            fr = pyres(BootableImage.load_from_config, dict(cfg, init_offset=now[0]), [F.scratch])
+            if fr[0] != "ok":
+                s.expect(False, inp, "a fresh object cannot be loaded with the init offset the object reports", (now[0], fr))
+            else:
+                want = observe(fr[1])
+                s.expect(now == want, inp, "after a sequence of init-offset assignments the object does not behave like a fresh object with the "
+                         "same segments and the current init offset (init offset, excluded flags, segments, len, export)", now, want)
+            toks.append(f"i:{v}" if kind != "name" else f"k:{T.gkind(v)}")
+            model_real.append(f"{now[0]}:{now[1]}")
+            prev = now
+        reqs.append(((fam, rev, mt, done), f"seq {T.glay(row['layout'])} {' '.join(toks)}", "S:" + ",".join(model_real)))
+    if drv is not None:
+        for (inp, line, real), ans in zip(reqs, drv.batch([q[1] for q in reqs])):
+            s.compare(inp, real, ans)
+
+
 def run(ck):
     import random
     import time
@@ -1154,7 +1244,9 @@ def run(ck):
     feed(ck, s, drv, T, results)
     t0 = _tick(ck, "model", t0)
     glue_stream(ck, T)
-    _tick(ck, "glue", t0)
+    t0 = _tick(ck, "glue", t0)
+    seq_stream(ck, drv, T, Factory(os.path.join(os.environ["VERIF_SCRATCH"], "seq")))
+    _tick(ck, "sequence", t0)
 
 
 def replay(ck, data):
